@@ -59,6 +59,28 @@ CLAIMED["C10"] = ("model_checking",
     "TLA+ spec at atomic-access granularity + TLC (all interleavings, negative controls); TLC schedules replayed into the real code; traces validated by TLC against a property-layer trace spec with HB ghost; memory orders extracted from traces parametrise the model",
     "Radix", "5 C10")
 
+CLAIMED["C06"] = ("model_checking",
+    "RBTreeImpl.tla transcribes insert (both tree variants), remove, fix_insert, fix_remove, the rotations and "
+    "replace_node; TLC enumerates every reachable tree shape for 6-8 elements over a key multiset with ties and checks "
+    "order (in-order and successor walks), inverse neighbour links, parent/child agreement, valid colouring, the "
+    "height bound and reset hooks in every state. One history per transition of that graph is replayed on the real "
+    "rbtree / rbtree_order; the structure read back through the tree's accessors must satisfy the same predicates "
+    "(TreePredicates.tla) for the abstract order - whatever shape the code built. Random histories up to 300 nodes "
+    "are validated after every call.",
+    "bounds: <=8 elements exhaustively (6-7 replayed), sampled to 300 nodes; key multisets with ties; shape agreement "
+    "with the transcription is not demanded (only the property predicates)",
+    "TLA+ transcription + TLC (all reachable shapes); transitions replayed into the real tree; logged structure validated by TLC against the property predicates",
+    "RBTree", "5 C06")
+CLAIMED["C07"] = ("model_checking",
+    "Same graph as C06 over an interval multiset with endpoints 0..3 (points, nested, touching, duplicates): in every "
+    "state TLC checks the transcribed for_overlaps for every query 0<=lb<=ub<=4 (exactly once, no other) and the "
+    "subtree_max aggregate. Every transition is replayed on the real interval_tree; after the last call all queries "
+    "and the one-argument form run on the real tree and the callback sequences and aggregate fields are validated; "
+    "random interval sets up to 200 intervals with random queries after every call.",
+    "bounds: <=7 intervals over endpoints 0..3 exhaustively; sampled beyond (endpoints to 1000)",
+    "TLA+ transcription + TLC (all reachable trees x all queries); transitions replayed; callback sequences validated by TLC",
+    "RBTree", "5 C07")
+
 NOT_YET = "check not built yet in this round (see DESIGN.md build order); not claimed until its TLA+ spec and conformance harness exist"
 
 checks, na = [], []
